@@ -16,8 +16,18 @@ import json, os, re, shutil, subprocess, sys, time, hashlib, random
 ROOT = os.path.dirname(os.path.dirname(os.path.abspath(__file__)))
 SPECS = os.path.join(ROOT, "specs")
 HARNESS = os.path.join(ROOT, "harness")
-WORKROOT = os.path.join(ROOT, ".work")
+# VERIF_WORK / VERIF_REPO: a second work area and another checkout of the project (used to run the checks against a
+# scratch worktree that carries a seeded change while /repo itself stays untouched); the registered commands set neither
+WORKROOT = os.environ.get("VERIF_WORK") or os.path.join(ROOT, ".work")
 REPO = os.environ.get("VERIF_REPO", "/repo")
+if REPO != "/repo":
+    _alt = os.path.join(WORKROOT, "harness")
+    if os.path.isdir(_alt):
+        shutil.rmtree(_alt)
+    shutil.copytree(HARNESS, _alt)
+    _gm = open(os.path.join(_alt, "go.mod")).read().replace("=> /repo", "=> " + REPO)
+    open(os.path.join(_alt, "go.mod"), "w").write(_gm)
+    HARNESS = _alt
 NCPU = os.cpu_count() or 4
 
 
@@ -272,12 +282,13 @@ class Verdict:
         self.violations.append((descriptor, detail))
 
     def finish(self):
-        os.makedirs(os.path.join(ROOT, "evidence"), exist_ok=True)
+        OUT = ROOT if REPO == "/repo" else WORKROOT        # a run against another checkout keeps its files to itself
+        os.makedirs(os.path.join(OUT, "evidence"), exist_ok=True)
         for fid, (f, n) in sorted(self.known_hit.items()):
             print("KNOWN-FINDING: property=%s %s (%s; %d case(s) this run)" % (self.prop, f["id"], f["what"], n))
         rc = 0
         if self.violations:
-            rdir = os.path.join(ROOT, "replays", self.prop)
+            rdir = os.path.join(OUT, "replays", self.prop)
             os.makedirs(rdir, exist_ok=True)
             for i, (desc, detail) in enumerate(self.violations[:20]):
                 path = os.path.join(rdir, "%s-%d-%d.json" % (self.tier, seed(), i))
@@ -295,7 +306,7 @@ class Verdict:
               "coverage": cov, "assumptions": self.assumptions, "wall_s": round(time.time() - self.t0, 2),
               "violations": len(self.violations), "known_findings_hit": {k: v[1] for k, v in self.known_hit.items()},
               "notes": self.notes}
-        with open(os.path.join(ROOT, "evidence", self.prop + ".json"), "w") as fh:
+        with open(os.path.join(OUT, "evidence", self.prop + ".json"), "w") as fh:
             json.dump(ev, fh, indent=1, default=str)
         print("%s %s: %s  (%.1fs; states=%s transitions=%s bound=%s)" % (
             self.prop, self.tier, "VIOLATED" if rc else "held", time.time() - self.t0, cov.get("states"), cov.get("transitions"),
